@@ -25,6 +25,10 @@ def run(ctx, db, tier):
     C07.private_fifo(ctx, db, 'C08.release-only-through-unlock')
     from . import C02
     C02.sync_waits(ctx, db, 'C08.blocking-lock-asks-once')
+    C02.link_current(ctx, db, 'C08.no-request-cut-off')
+    C02.await_suspend_siblings(ctx, db, 'C08.free-path-grant-is-reported')
+    from . import C06
+    C06.source_reset(ctx, db, 'C08.released-owner-not-dropped')
     atomic.check_roles(ctx, db, 'C08.request-links-visible', only_functions={'cocls::mutex::ready', 'cocls::mutex::unlock', 'cocls::mutex::build_queue', 'cocls::awaiter::subscribe'}, floor=4)
 
 
